@@ -299,3 +299,23 @@ PLAN['C04'] = {
                     'orders of magnitude above the honest cost on inputs of bounded size',
                     'the malformed-input domain is the structured one described in the rule, not all of uint64^k'],
 }
+
+
+# --------------------------------------------------------------------------- C05
+PLAN['C05'] = {
+    'stages': lambda tier, seed: (
+        [core('core_enc', ['mod', 'enc'], 5, 2, invariants=False)] if tier == 'quick' else
+        [core('core_enc', ['mod', 'enc'], 6, 3, invariants=False)]),
+    'rule': 'spec/Core.tla with the action parameter enc: every block of every reachable state is emitted in every '
+            'encoding of its deletion proof - targets and hashes in every permutation (|D|<=3; ascending/descending/rotated '
+            'beyond) with 0, 1 or 2 unused trailing proof hashes, assembled by the real AddProof from the canonical proofs '
+            'of every split D = A u B (disjoint and overlapping), and cut out of the canonical proof of every superset S '
+            '(|S|<=|D|+2) by the real GetProofSubset. The harness asks the real Verify; if and only if it accepts, the same '
+            '(hashes, proof, additions) go to Stump.Update, Pollard.Modify and full/partial MapPollard.Modify (partial: after '
+            'Verify with remember of that same proof) and all roots must equal the encoding-independent expectation. '
+            'Non-trivial: a block that deletes or adds; distinct by (witness history, block, encoding).',
+    'bounds': {'quick': 'n<=5, adds 0..2', 'thorough': 'n<=6, adds 0..3; TotalRows 0..63'},
+    'exhaustive': {'quick': True, 'thorough': True},
+    'assumptions': ['free term algebra for hashes', 'nothing is claimed for encodings the real Verify rejects (the property is conditional on acceptance); the counts of accepted encodings per kind are in the evidence',
+                    'encodings through a cached-proof update are covered by C07 (the updated proof equals the canonical one)'],
+}
